@@ -290,6 +290,13 @@ class ChainBuild(Suite):
                           dict(K(3, 'Top', meta_inputs=[{'cls': 2}]), name='top')],
                  files={}, base={'name': 'm', 'data': {'tasks': ['@M.*'], 'x': 1, 'y': 2}}, context=None, hist=True),
             # the same with an inherited required input that is not declared anywhere: construction fails
+            # the same without explicit names (the name of a task then comes from its class, not from its Meta)
+            dict(classes=[K(0, 'Src', params=[P('x')]), K(1, 'Other', params=[P('x')]), K(2, 'Base', meta_inputs=[{'cls': 0}], params=[P('y', default=[1])]),
+                          dict(K(3, 'Derived', meta_inputs=[{'cls': 1}], params=[P('y', default=[3])]), task_base=2),
+                          K(4, 'Top', meta_inputs=[{'cls': 3}])],
+                 files={'p.json': {'tasks': ['@M.Src', '@M.Other', '@M.Base', '@M.Derived', '@M.Top'], 'x': 2}},
+                 base={'name': 'm', 'data': {'tasks': ['@M.Src', '@M.Other', '@M.Base', '@M.Derived', '@M.Top'], 'x': 1, 'uses': 'p.json as n'}},
+                 context=None, hist=True, records=True),
             dict(classes=[dict(K(0, 'Src', params=[P('x')]), name='src'),
                           dict(K(1, 'Base', meta_inputs=[{'cls': 0}], abstract=True), name='base'),
                           dict(K(2, 'Derived', meta_inputs=[{'cls': 0}], abstract=False), name='derived', meta_base=1)],
@@ -376,6 +383,25 @@ class ChainBuild(Suite):
             dict(classes=[dict(K(0, 'Features'), name='features'), dict(K(1, 'LegacyFeatures', group='legacy'), name='features'),
                           dict(K(2, 'Model', param_inputs=[dict(ref={'cls': 0}, default=[7])]), name='model')],
                  files={'p.json': {'tasks': ['@M.LegacyFeatures', '@M.Model']}}, base={'name': 'm', 'data': {'uses': 'p.json as n'}}, context=None),
+            # a multi-config file opened without `#part`: parts that say `main_part: false` come before the main part
+            dict(classes=[dict(K(0, 'Abc', params=[P('x')]), name='abc'), dict(K(1, 'Dep', meta_inputs=[{'cls': 0}]), name='dep')],
+                 files={'multi.json': {'configs': {'small': {'tasks': ['@M.*'], 'x': 3, 'main_part': False},
+                                                   'mid': {'tasks': ['@M.*'], 'x': 5, 'main_part': False},
+                                                   'large': {'tasks': ['@M.*'], 'x': 10, 'main_part': True}}}},
+                 base={'file': 'multi.json'}, context=None, hist=True),
+            dict(classes=[dict(K(0, 'Abc', params=[P('x')]), name='abc'), dict(K(1, 'Dep', meta_inputs=[{'cls': 0}]), name='dep')],
+                 files={'multi.json': {'configs': {'small': {'tasks': ['@M.*'], 'x': 3, 'main_part': False},
+                                                   'large': {'tasks': ['@M.*'], 'x': 10, 'main_part': True}}}},
+                 base={'name': 'm', 'data': {'uses': ['multi.json as exp', 'multi.json#small as s']}}, context=None, hist=True),
+            # several contexts give a mapping for one global key: the later mapping replaces the earlier one as a whole
+            dict(classes=[dict(K(0, 'Abc', params=[P('opt'), P('other', default=[0])]), name='abc')],
+                 files={'ctx/a.json': {'opt': {'name': 'adam', 'lr': 0.01, 'weight_decay': 0.1}, 'other': {'k': 1}},
+                        'ctx/b.json': {'opt': {'name': 'sgd', 'lr': 0.2}}},
+                 base={'name': 'm', 'data': {'tasks': ['@M.*'], 'opt': {'name': 'none', 'extra': True}}},
+                 context={'list': [{'file': 'ctx/a.json'}, {'file': 'ctx/b.json'}, {'dict': {'other': {'j': 2}}}]}),
+            dict(classes=[dict(K(0, 'Abc', params=[P('opt')]), name='abc')],
+                 files={}, base={'name': 'm', 'data': {'tasks': ['@M.*'], 'opt': 1}},
+                 context={'list': [{'dict': {'opt': {'a': {'deep': 1, 'gone': 2}}}}, {'dict': {'opt': {'a': {'deep': 3}}}}]}),
             # an input in a nested namespace whose name contains the outer namespace's name
             dict(classes=[dict(K(0, 'Producer'), name='producer'),
                           dict(K(1, 'Consumer', meta_inputs=[{'name': 'basemodel::producer'}]), name='consumer')],
